@@ -1,10 +1,13 @@
-(* C12 -- datum sequences: the ways of iterating agree (proved part).
-   Concatenation is proved for single-space separation (C12_concat_partial);
-   general trivia insensitivity and termination are checked by the
-   correspondence and the implementation-level oracle (see theorems.json). *)
+(* C12 -- datum sequences: the ways of iterating agree; concatenation and
+   trivia insensitivity for the default dialect over the C01 class of values
+   (C12_trivia_*: any whitespace and line comments at every list, vector and
+   top-level boundary, including a final comment without a newline);
+   termination, the Emacs Lisp dialect and trivia inside byte vectors are
+   checked by the correspondence and the implementation-level oracle (see
+   theorems.json). *)
 From Coq Require Import SpecFloat.
 Require Import Base Value Float PrintOptions ParseOptions Reader Scan Num Parser DatumProofs DepthProofs.
-Require Import ReaderProofs RoundtripProofs.
+Require Import ReaderProofs TokenProofs RoundtripProofs TriviaProofs.
 
 (* value_iter().next() and Iterator for Parser are next_value().transpose(),
    datum_iter().next() is next_datum().transpose(): in the model these are
@@ -36,6 +39,93 @@ Theorem C12_concat_partial : forall ryu alpha fast std_parse vs fuel n r D,
   iterate_values default_ro alpha fast std_parse fuel n (mkp r D) = map (fun v => POk v) vs.
 Proof. exact iterate_sequence. Qed.
 Print Assumptions C12_concat_partial.
+
+(* Trivia. A layout (TriviaProofs.lay) spells a value with explicit trivia at
+   every boundary: before each list or vector element, around the dot of a
+   dotted tail, before the closing parenthesis; its leaves are printed values.
+   trivia = any sequence of space, LF, tab, CR, FF and ";...LF" comments;
+   trivia_eof additionally allows a last comment cut off by the end of input.
+   lok asks only that consecutive elements are set off from each other (by
+   non-empty trivia or an opening parenthesis) and that the dot stands alone.
+
+   Any sequence of layouts, each after its own trivia, followed by trailing
+   trivia, reads as exactly the laid-out values in order and then the end: *)
+Theorem C12_trivia_sequence_partial : forall ryu alpha fast std_parse ls first post fuel n r D,
+  seq_ok ryu alpha first D ls -> trivia_eof post -> D <= 128 ->
+  (length (seq_ltxt ryu ls post) + 16 + 2 <= fuel)%nat -> (length ls < n)%nat -> at_bytes r (seq_ltxt ryu ls post) ->
+  iterate_values default_ro alpha fast std_parse fuel n (mkp r D) = map (fun pl => POk (lval (snd pl))) ls.
+Proof. exact iterate_layouts. Qed.
+Print Assumptions C12_trivia_sequence_partial.
+
+(* one value through the public entry point, from any of the three sources *)
+Theorem C12_trivia_value_partial : forall ryu alpha fast std_parse k l pre post,
+  trivia pre -> trivia_eof post -> lok ryu alpha l -> (ldepth l <= 127)%nat ->
+  from_trait default_ro alpha fast std_parse k (bytes_events (pre ++ ltxt ryu l ++ post)) = POk (lval l).
+Proof. exact layout_from_trait. Qed.
+Print Assumptions C12_trivia_value_partial.
+
+(* the value read is lval, which does not look at the trivia: inserting,
+   changing or removing trivia (between two well-formed layouts of the same
+   value) never changes the result *)
+Theorem C12_trivia_insensitive_partial : forall ryu alpha fast std_parse k l1 l2 pre1 post1 pre2 post2,
+  trivia pre1 -> trivia_eof post1 -> lok ryu alpha l1 -> (ldepth l1 <= 127)%nat ->
+  trivia pre2 -> trivia_eof post2 -> lok ryu alpha l2 -> (ldepth l2 <= 127)%nat -> lval l1 = lval l2 ->
+  from_trait default_ro alpha fast std_parse k (bytes_events (pre1 ++ ltxt ryu l1 ++ post1)) =
+  from_trait default_ro alpha fast std_parse k (bytes_events (pre2 ++ ltxt ryu l2 ++ post2)).
+Proof. exact same_value_same_result. Qed.
+Print Assumptions C12_trivia_insensitive_partial.
+
+(* the printer's own text is the layout with no extra trivia *)
+Example C12_layout_of_printed : forall ryu v, ltxt ryu (LAtom v) = TextProofs.txt ryu v /\ lval (LAtom v) = v.
+Proof. intros; split; reflexivity. Qed.
+
+(* the hypotheses are satisfiable: "\t( a ;c\n\t(b . \rc\f)(d) #(1\n2 ) ) ; end" *)
+Definition c12_layout : lay :=
+  LSeq false
+    (BItem [32] (LAtom (Symbol (s2b "a")))
+    (BItem (s2b " ;c" ++ [10; 9])
+           (LSeq false (BItem [] (LAtom (Symbol (s2b "b"))) (BDot [32] [32; 13] (LAtom (Symbol (s2b "c"))) [12])))
+    (BItem [] (LSeq false (BItem [] (LAtom (Symbol (s2b "d"))) (BEnd [])))
+    (BItem [32] (LSeq true (BItem [] (LAtom (Number (PosInt 1))) (BItem [10] (LAtom (Number (PosInt 2))) (BEnd [32]))))
+    (BEnd [32]))))).
+Definition c12_value : value :=
+  build [Symbol (s2b "a"); Cons (Symbol (s2b "b")) (Symbol (s2b "c")); Cons (Symbol (s2b "d")) Null;
+         Vector [Number (PosInt 1); Number (PosInt 2)]] Null.
+Example C12_trivia_nonvacuous :
+  trivia [9] /\ trivia_eof (s2b " ; end") /\ lok (fun _ => []) (fun _ => true) c12_layout /\ (ldepth c12_layout <= 127)%nat /\
+  lval c12_layout = c12_value /\
+  ltxt (fun _ => []) c12_layout = s2b "( a ;c" ++ [10; 9] ++ s2b "(b . " ++ [13] ++ s2b "c" ++ [12] ++ s2b ")(d) #(1" ++ [10] ++ s2b "2 ) )" /\
+  forall k, from_trait default_ro (fun _ => true) true dec_to_f64 k
+              (bytes_events ([9] ++ ltxt (fun _ => []) c12_layout ++ s2b " ; end")) = POk c12_value.
+Proof.
+  assert (Hsym : forall c, is_ascii_alpha c = true -> rt_ok (fun _ => true) (Symbol [c])).
+  { intros c Hc. cbn [rt_ok]. unfold plain_symbol, ScanProofs.no_terminator, ScanProofs.symbol_ok.
+    assert (Hc' : c = 97 \/ c = 98 \/ c = 99 \/ c = 100 \/ ~ (c = 97 \/ c = 98 \/ c = 99 \/ c = 100)) by lia.
+    repeat split.
+    - constructor; [|constructor]. unfold is_ascii_alpha, is_ascii_lower, is_ascii_upper, in_range in Hc.
+      unfold is_symbol_terminator, memb. cbn [existsb]. lia.
+    - unfold is_ascii_alpha, is_ascii_lower, is_ascii_upper, in_range in Hc. cbn. destruct (c =? 46) eqn:E; [lia|reflexivity].
+    - unfold is_ascii_alpha, is_ascii_lower, is_ascii_upper, in_range in Hc. cbn [Utf8.utf8_valid].
+      unfold Utf8.utf8_valid. cbn. assert (E : (c <? 128) = true) by lia. rewrite E. reflexivity.
+    - left; left; exact Hc. }
+  split; [apply is_trivia_ok; reflexivity|].
+  split; [apply (te_open [32] (s2b " end")); [apply is_trivia_ok; reflexivity|repeat constructor; discriminate]|].
+  split.
+  { cbn [c12_layout lok bok]. repeat match goal with
+      | |- _ /\ _ => split
+      | |- trivia _ => apply is_trivia_ok; reflexivity
+      | |- rt_ok _ (Symbol _) => apply Hsym; reflexivity
+      | |- rt_ok _ (Number _) => cbn; unfold u64_MAX; lia
+      | |- true = true \/ _ => left; reflexivity
+      | |- false = true \/ _ => right; reflexivity
+      | |- _ = _ => reflexivity
+      | |- _ <> _ => discriminate
+      | |- delim_ok _ => reflexivity
+      end. }
+  split; [vm_compute; repeat constructor|].
+  split; [reflexivity|]. split; [vm_compute; reflexivity|].
+  intros k; destruct k; vm_compute; reflexivity.
+Qed.
 
 (* An unexpected closer is consumed when it is reported, so iteration moves on. *)
 Example C12_closer_consumed :
